@@ -1698,6 +1698,14 @@ impl StakingWorld {
                                                 tr.fail("C20", "quote_eq_exec.boosted", "calculateRewardsForGivenPosition",
                                                     &format!("view {} expected base {} + boosted of recorded owner {}", v, base_e, eb));
                                             }
+                                            // finding F8: the view has no `user` argument, so for a RECEIVED position it promises the
+                                            // recorded owner's boosted rewards while claimRewards pays the holder's own — the
+                                            // property's statement (quote = execution in the same state) evaluated as it is worded
+                                            if v != outs.2 {
+                                                tr.count("branch.quote_received_position_differs");
+                                                tr.fail("C20", "quote_eq_exec.staking_received_position", "calculateRewardsForGivenPosition",
+                                                    &format!("view {} but claimRewards by the holder (not the recorded owner) paid {} (base {}, recorded owner's boosted {})", v, outs.2, base_e, eb));
+                                            }
                                         }
                                     }
                                 }
